@@ -150,7 +150,14 @@ fn main_loop(state: &mut GlobalState) -> anyhow::Result<()> {
                             Ok(())
                         })?
                         .on::<DidCloseTextDocument>(|state, params| {
-                            state.workspace.close(params)?;
+                            let loc = state.workspace.close(params)?;
+                            // A closed document is not reset by the next refresh anymore.
+                            let info = notify::<PublishDiagnostics>(PublishDiagnosticsParams {
+                                uri: loc.url().clone(),
+                                diagnostics: Vec::new(),
+                                version: None,
+                            });
+                            state.conn.sender.send(Message::Notification(info))?;
                             state.is_stale = true;
                             Ok(())
                         })?
